@@ -185,6 +185,8 @@ def dumpAddr (s : State) (e : Env) (a : Nat) : String :=
 def idsWhere (p : Nat → Bool) (bound : Nat) : List Nat := (List.range (bound + 1)).filter p
 
 def dumpState (s : State) (e : Env) (bound : Nat) (addrs : List Nat) : String :=
+  -- the window of ticket ids printed: the caller's bound, but never less than the ticket space itself
+  let bound := max bound (s.lastTicketId + 2)
   let f := s.flags
   let globals := s!"flags={b2s f.started}{b2s f.filtered}{b2s f.selected}{b2s f.additional} cfg={s.cfg.conf},{s.cfg.sel},{s.cfg.claim} price={s.payTok.code}:{s.price} per={s.perTicket} nrw={s.nrWinning} last={s.lastTicketId} dep={b2s s.deposited} tdep={s.totalDeposited} cpay={s.claimablePayment} sup={s.support} paused={b2s s.paused} op={showOp s.op}"
   let bals := " bal=" ++ showList ((List.range 6).map (fun c => s!"{c}:{s.bal (tokOf c) 0}"))
